@@ -5,6 +5,7 @@ import Marwood.Vm.Eval
 import Driver.VmCompile
 import Driver.VmVerify
 import Driver.SimStep
+import Driver.SimGood
 /-! Driver commands of the Vm area. -/
 namespace Marwood.Driver.Vm
 open Marwood Marwood.Vm
@@ -34,6 +35,7 @@ def handle (cmd : String) (args : List String) : Option String :=
       else pure ("ok " ++ " ".intercalate (slices (traceMachine k (kind == "h")) bs 0))
   | "step", args => VmStep.handleStep args
   | "simstep", args => SimStep.handle args
+  | "simgood", args => SimGood.handle args
   | "errstate", [cap] => do
       let cap ← cap.toNat?
       -- an arbitrary mid-evaluation state with that stack capacity, through the error epilogue
